@@ -24,6 +24,11 @@
 (*                TRUE: a service that is in both lists of a batch is kept *)
 (*                only in the list that agrees with the subscribed set     *)
 (*                (read under the read lock just before the send)          *)
+(*   HasKeepalive - TRUE (the code: grpc.WithKeepaliveParams(30 s, 10 s) in *)
+(*                config/dynamic.go initDiscoveryClient): the transport    *)
+(*                turns a silent failure of the connection (it stops       *)
+(*                delivering, no FIN/RST, nothing ever errors) into an     *)
+(*                error of Recv/Send; FALSE: a silent failure stays silent *)
 (*   LossySend  - TRUE: a Send on a broken stream may also return nil with *)
 (*                the message lost (what a real gRPC stream does); the     *)
 (*                scripted stream of the harness always returns an error   *)
@@ -34,7 +39,7 @@ CONSTANTS Svcs,        \* service names
           Cap,         \* capacity of subCh / unsubCh (code: 16)
           MaxOps,      \* caller operations per behaviour
           MaxFails,    \* stream failures (creation failures + breaks) per behaviour
-          FixEnqueue, FixBatch, LossySend
+          FixEnqueue, FixBatch, LossySend, HasKeepalive
 
 VARIABLES
   subscribed,          \* c.subscribed
@@ -48,13 +53,14 @@ VARIABLES
   rcv,                 \* pc of loopRecv: off | recv | done (recvDone closed)
   snap,                \* snapshot taken by resubscribe
   batchS, batchU,      \* the sender's batch in hand
-  up,                  \* the current stream is usable
+  up,                  \* the current stream has not reported an error to the client
+  silent,              \* the current stream no longer reaches the server, and nothing has told the client
   srv,                 \* services subscribed on the current stream, as the server sees it
   fails,               \* failures injected so far
   amb                  \* ghost: services whose last request on this stream named them in both lists
 
 vars == <<subscribed, subCh, unsubCh, lock, caller, cop, ops, deps, run, rcv, snap, batchS, batchU,
-          up, srv, fails, amb>>
+          up, silent, srv, fails, amb>>
 
 RunPCs == {"newStream", "backoff", "resubLock", "resubSend", "sendSelect", "sendBatch",
            "sendResolve", "sendSend", "waitRecv"}
@@ -66,13 +72,13 @@ TypeOK ==
   /\ lock \in {"free", "W"}
   /\ caller \in {"idle", "wantLock", "enqueue", "unlock"}
   /\ run \in RunPCs /\ rcv \in {"off", "recv", "done"}
-  /\ up \in BOOLEAN /\ ops \in 0..MaxOps /\ fails \in 0..MaxFails
+  /\ up \in BOOLEAN /\ silent \in BOOLEAN /\ (silent => up) /\ ops \in 0..MaxOps /\ fails \in 0..MaxFails
 
 Init ==
   /\ subscribed = {} /\ subCh = <<>> /\ unsubCh = <<>> /\ lock = "free"
   /\ caller = "idle" /\ cop = <<"none", "none">> /\ ops = 0 /\ deps = {}
   /\ run = "newStream" /\ rcv = "off" /\ snap = {} /\ batchS = {} /\ batchU = {}
-  /\ up = FALSE /\ srv = {} /\ fails = 0 /\ amb = {}
+  /\ up = FALSE /\ silent = FALSE /\ srv = {} /\ fails = 0 /\ amb = {}
 
 Range(q) == {q[i] : i \in 1..Len(q)}
 
@@ -84,7 +90,7 @@ CallStart(s, kind) ==
   /\ caller = "idle" /\ ops < MaxOps
   /\ deps' = IF kind = "sub" THEN deps \cup {s} ELSE deps \ {s}
   /\ cop' = <<kind, s>> /\ caller' = "wantLock" /\ ops' = ops + 1
-  /\ UNCHANGED <<subscribed, subCh, unsubCh, lock, run, rcv, snap, batchS, batchU, up, srv, fails, amb>>
+  /\ UNCHANGED <<subscribed, subCh, unsubCh, lock, run, rcv, snap, batchS, batchU, up, silent, srv, fails, amb>>
 
 (* c.Lock(); membership test; update of the set (discovery.go:284-290 / 295-301). *)
 (* Early return releases the lock at once.  Repaired code: the lock is released   *)
@@ -98,7 +104,7 @@ CallLock ==
           ELSE /\ subscribed' = IF cop[1] = "sub" THEN subscribed \cup {s} ELSE subscribed \ {s}
                /\ caller' = "enqueue"
                /\ lock' = IF FixEnqueue THEN "free" ELSE "W"
-  /\ UNCHANGED <<subCh, unsubCh, cop, ops, deps, run, rcv, snap, batchS, batchU, up, srv, fails, amb>>
+  /\ UNCHANGED <<subCh, unsubCh, cop, ops, deps, run, rcv, snap, batchS, batchU, up, silent, srv, fails, amb>>
 
 (* c.subCh <- svcName / c.unsubCh <- svcName: blocks while the channel is full    *)
 (* (discovery.go:291 / 302).                                                      *)
@@ -108,31 +114,31 @@ CallEnqueue ==
        THEN /\ Len(subCh) < Cap /\ subCh' = Append(subCh, cop[2]) /\ UNCHANGED unsubCh
        ELSE /\ Len(unsubCh) < Cap /\ unsubCh' = Append(unsubCh, cop[2]) /\ UNCHANGED subCh
   /\ caller' = IF FixEnqueue THEN "idle" ELSE "unlock"
-  /\ UNCHANGED <<subscribed, lock, cop, ops, deps, run, rcv, snap, batchS, batchU, up, srv, fails, amb>>
+  /\ UNCHANGED <<subscribed, lock, cop, ops, deps, run, rcv, snap, batchS, batchU, up, silent, srv, fails, amb>>
 
 (* deferred c.Unlock() (pinned code) *)
 CallUnlock ==
   /\ caller = "unlock" /\ lock' = "free" /\ caller' = "idle"
-  /\ UNCHANGED <<subscribed, subCh, unsubCh, cop, ops, deps, run, rcv, snap, batchS, batchU, up, srv, fails, amb>>
+  /\ UNCHANGED <<subscribed, subCh, unsubCh, cop, ops, deps, run, rcv, snap, batchS, batchU, up, silent, srv, fails, amb>>
 
 -----------------------------------------------------------------------------
 (* c.newStream(ctx) returns a stream (discovery.go:328).  The server starts with  *)
 (* no subscription on a new stream.                                                *)
 NewStreamOK ==
   /\ run = "newStream"
-  /\ up' = TRUE /\ srv' = {} /\ amb' = {} /\ run' = "resubLock"
+  /\ up' = TRUE /\ silent' = FALSE /\ srv' = {} /\ amb' = {} /\ run' = "resubLock"
   /\ UNCHANGED <<subscribed, subCh, unsubCh, lock, caller, cop, ops, deps, rcv, snap, batchS, batchU, fails>>
 
 (* c.newStream(ctx) fails (discovery.go:329-332): back to Run, retry timer.       *)
 NewStreamFail ==
   /\ run = "newStream" /\ fails < MaxFails
   /\ fails' = fails + 1 /\ run' = "backoff"
-  /\ UNCHANGED <<subscribed, subCh, unsubCh, lock, caller, cop, ops, deps, rcv, snap, batchS, batchU, up, srv, amb>>
+  /\ UNCHANGED <<subscribed, subCh, unsubCh, lock, caller, cop, ops, deps, rcv, snap, batchS, batchU, up, silent, srv, amb>>
 
 (* the jittered retry timer fires (discovery.go:316-323)                          *)
 Backoff ==
   /\ run = "backoff" /\ run' = "newStream"
-  /\ UNCHANGED <<subscribed, subCh, unsubCh, lock, caller, cop, ops, deps, rcv, snap, batchS, batchU, up, srv, fails, amb>>
+  /\ UNCHANGED <<subscribed, subCh, unsubCh, lock, caller, cop, ops, deps, rcv, snap, batchS, batchU, up, silent, srv, fails, amb>>
 
 (* resubscribe: RLock; snapshot of the set; flush of both channels; RUnlock       *)
 (* (discovery.go:353-362).  With an empty snapshot nothing is sent (364-367) and  *)
@@ -152,43 +158,45 @@ ResubLock ==
   /\ IF subscribed = {}
        THEN run' = "sendSelect" /\ rcv' = "recv"
        ELSE run' = "resubSend" /\ UNCHANGED rcv
-  /\ UNCHANGED <<subscribed, lock, cop, ops, deps, batchS, batchU, up, srv, fails, amb>>
+  /\ UNCHANGED <<subscribed, lock, cop, ops, deps, batchS, batchU, up, silent, srv, fails, amb>>
 
 (* stream.Send(snapshot, nil) (discovery.go:369); an error ends run() before the  *)
-(* loops are started (335-338).                                                   *)
+(* loops are started (335-338).  On a silently dead stream the Send succeeds into *)
+(* the socket buffer.                                                             *)
 ResubSend ==
   /\ run = "resubSend"
-  /\ \/ /\ up /\ srv' = srv \cup snap /\ amb' = amb \ snap
+  /\ \/ /\ up /\ ~silent /\ srv' = srv \cup snap /\ amb' = amb \ snap
         /\ run' = "sendSelect" /\ rcv' = "recv"
+     \/ /\ up /\ silent /\ run' = "sendSelect" /\ rcv' = "recv" /\ UNCHANGED <<srv, amb>>
      \/ /\ ~up /\ run' = "backoff" /\ UNCHANGED <<srv, amb, rcv>>
      \/ /\ ~up /\ LossySend /\ run' = "sendSelect" /\ rcv' = "recv" /\ UNCHANGED <<srv, amb>>
   /\ snap' = {}
-  /\ UNCHANGED <<subscribed, subCh, unsubCh, lock, caller, cop, ops, deps, batchS, batchU, up, fails>>
+  /\ UNCHANGED <<subscribed, subCh, unsubCh, lock, caller, cop, ops, deps, batchS, batchU, up, silent, fails>>
 
 (* loopSend: the first select (discovery.go:404-411) and every iteration of the   *)
 (* batch loop (414-425) take one entry of one channel ...                         *)
 SenderTakeSub ==
   /\ run \in {"sendSelect", "sendBatch"} /\ subCh # <<>>
   /\ batchS' = batchS \cup {Head(subCh)} /\ subCh' = Tail(subCh) /\ run' = "sendBatch"
-  /\ UNCHANGED <<subscribed, unsubCh, lock, caller, cop, ops, deps, rcv, snap, batchU, up, srv, fails, amb>>
+  /\ UNCHANGED <<subscribed, unsubCh, lock, caller, cop, ops, deps, rcv, snap, batchU, up, silent, srv, fails, amb>>
 
 SenderTakeUnsub ==
   /\ run \in {"sendSelect", "sendBatch"} /\ unsubCh # <<>>
   /\ batchU' = batchU \cup {Head(unsubCh)} /\ unsubCh' = Tail(unsubCh) /\ run' = "sendBatch"
-  /\ UNCHANGED <<subscribed, subCh, lock, caller, cop, ops, deps, rcv, snap, batchS, up, srv, fails, amb>>
+  /\ UNCHANGED <<subscribed, subCh, lock, caller, cop, ops, deps, rcv, snap, batchS, up, silent, srv, fails, amb>>
 
 (* ... or see recvDone closed and return, dropping the batch in hand (409, 420);  *)
 (* run() then passes <-recvDone at once (341-343) and Run arms the retry timer.   *)
 SenderStop ==
   /\ run \in {"sendSelect", "sendBatch"} /\ rcv = "done"
   /\ run' = "backoff" /\ rcv' = "off" /\ batchS' = {} /\ batchU' = {}
-  /\ UNCHANGED <<subscribed, subCh, unsubCh, lock, caller, cop, ops, deps, snap, up, srv, fails, amb>>
+  /\ UNCHANGED <<subscribed, subCh, unsubCh, lock, caller, cop, ops, deps, snap, up, silent, srv, fails, amb>>
 
 (* ... or, in the batch loop only, find nothing ready: goto SEND (422-423)        *)
 SenderDefault ==
   /\ run = "sendBatch" /\ subCh = <<>> /\ unsubCh = <<>> /\ rcv # "done"
   /\ run' = IF FixBatch THEN "sendResolve" ELSE "sendSend"
-  /\ UNCHANGED <<subscribed, subCh, unsubCh, lock, caller, cop, ops, deps, rcv, snap, batchS, batchU, up, srv, fails, amb>>
+  /\ UNCHANGED <<subscribed, subCh, unsubCh, lock, caller, cop, ops, deps, rcv, snap, batchS, batchU, up, silent, srv, fails, amb>>
 
 (* repaired code only: a service in both lists is kept in the list that agrees    *)
 (* with the subscribed set, read under the read lock (taken only when needed)     *)
@@ -199,50 +207,69 @@ SenderResolve ==
        /\ batchS' = batchS \ (both \ subscribed)
        /\ batchU' = batchU \ (both \cap subscribed)
   /\ run' = "sendSend"
-  /\ UNCHANGED <<subscribed, subCh, unsubCh, lock, caller, cop, ops, deps, rcv, snap, up, srv, fails, amb>>
+  /\ UNCHANGED <<subscribed, subCh, unsubCh, lock, caller, cop, ops, deps, rcv, snap, up, silent, srv, fails, amb>>
 
 (* stream.Send(subscribed, unsubscribed) (discovery.go:428); an error ends        *)
-(* loopSend, run() then waits for loopRecv (341-343).                             *)
+(* loopSend, run() then waits for loopRecv (341-343).  On a silently dead stream  *)
+(* the Send succeeds into the socket buffer.                                      *)
 SenderSend ==
   /\ run = "sendSend"
-  /\ \/ /\ up /\ srv' = (srv \cup batchS) \ batchU
+  /\ \/ /\ up /\ ~silent /\ srv' = (srv \cup batchS) \ batchU
         /\ amb' = (amb \ (batchS \cup batchU)) \cup (batchS \cap batchU)
         /\ run' = "sendSelect"
+     \/ /\ up /\ silent /\ run' = "sendSelect" /\ UNCHANGED <<srv, amb>>
      \/ /\ ~up /\ run' = "waitRecv" /\ UNCHANGED <<srv, amb>>
      \/ /\ ~up /\ LossySend /\ run' = "sendSelect" /\ UNCHANGED <<srv, amb>>
   /\ batchS' = {} /\ batchU' = {}
-  /\ UNCHANGED <<subscribed, subCh, unsubCh, lock, caller, cop, ops, deps, rcv, snap, up, fails>>
+  /\ UNCHANGED <<subscribed, subCh, unsubCh, lock, caller, cop, ops, deps, rcv, snap, up, silent, fails>>
 
 (* <-recvDone after loopSend returned because of a send error                     *)
 WaitRecv ==
   /\ run = "waitRecv" /\ rcv = "done"
   /\ run' = "backoff" /\ rcv' = "off"
-  /\ UNCHANGED <<subscribed, subCh, unsubCh, lock, caller, cop, ops, deps, snap, batchS, batchU, up, srv, fails, amb>>
+  /\ UNCHANGED <<subscribed, subCh, unsubCh, lock, caller, cop, ops, deps, snap, batchS, batchU, up, silent, srv, fails, amb>>
 
 (* loopRecv: stream.Recv() fails on a broken stream; close(recvDone) (392-399,    *)
 (* 345-348).  Messages pushed by the server only reach the hook and are not       *)
-(* modelled.                                                                      *)
+(* modelled.  On a silently dead stream Recv keeps blocking.                      *)
 RecvFail ==
   /\ rcv = "recv" /\ ~up /\ rcv' = "done"
-  /\ UNCHANGED <<subscribed, subCh, unsubCh, lock, caller, cop, ops, deps, run, snap, batchS, batchU, up, srv, fails, amb>>
+  /\ UNCHANGED <<subscribed, subCh, unsubCh, lock, caller, cop, ops, deps, run, snap, batchS, batchU, up, silent, srv, fails, amb>>
 
-(* Environment: the established stream breaks (server restart, network), at any   *)
-(* point of the client's progress.                                                *)
+(* Environment: the established stream breaks with an error the client sees       *)
+(* (server restart, RST), at any point of the client's progress.                  *)
 StreamFail ==
   /\ up /\ fails < MaxFails
-  /\ up' = FALSE /\ fails' = fails + 1
+  /\ up' = FALSE /\ silent' = FALSE /\ fails' = fails + 1
   /\ UNCHANGED <<subscribed, subCh, unsubCh, lock, caller, cop, ops, deps, run, rcv, snap, batchS, batchU, srv, amb>>
+
+(* Environment: the connection carrying the stream dies without FIN/RST (host     *)
+(* powered off, NAT/LB entry dropped, partition): nothing reaches the server any   *)
+(* more, Recv keeps blocking, Send keeps succeeding into the socket buffer.        *)
+SilentFail ==
+  /\ up /\ ~silent /\ fails < MaxFails
+  /\ silent' = TRUE /\ fails' = fails + 1
+  /\ UNCHANGED <<subscribed, subCh, unsubCh, lock, caller, cop, ops, deps, run, rcv, snap, batchS, batchU, up, srv, amb>>
+
+(* Transport: the client keepalive (ping after 30 s without traffic, 10 s for the  *)
+(* answer; config/dynamic.go:90-93) closes the dead connection: from now on Recv    *)
+(* and Send of the stream fail.  Without the dial option this never happens.        *)
+KeepaliveDetect ==
+  /\ HasKeepalive /\ up /\ silent
+  /\ up' = FALSE /\ silent' = FALSE
+  /\ UNCHANGED <<subscribed, subCh, unsubCh, lock, caller, cop, ops, deps, run, rcv, snap, batchS, batchU, srv, fails, amb>>
 
 -----------------------------------------------------------------------------
 CallerNext == CallLock \/ CallEnqueue \/ CallUnlock
 RunNext == NewStreamOK \/ Backoff \/ ResubLock \/ ResubSend \/ SenderTakeSub \/ SenderTakeUnsub
              \/ SenderStop \/ SenderDefault \/ SenderResolve \/ SenderSend \/ WaitRecv
 RecvNext == RecvFail
-ProxyNext == CallerNext \/ RunNext \/ RecvNext
-EnvNext == (\E s \in Svcs, k \in {"sub", "unsub"} : CallStart(s, k)) \/ NewStreamFail \/ StreamFail
+TransportNext == KeepaliveDetect
+ProxyNext == CallerNext \/ RunNext \/ RecvNext \/ TransportNext
+EnvNext == (\E s \in Svcs, k \in {"sub", "unsub"} : CallStart(s, k)) \/ NewStreamFail \/ StreamFail \/ SilentFail
 Next == ProxyNext \/ EnvNext
 
-Fairness == WF_vars(CallerNext) /\ WF_vars(RunNext) /\ WF_vars(RecvNext)
+Fairness == WF_vars(CallerNext) /\ WF_vars(RunNext) /\ WF_vars(RecvNext) /\ WF_vars(TransportNext)
 Spec == Init /\ [][Next]_vars /\ Fairness
 
 -----------------------------------------------------------------------------
@@ -250,7 +277,7 @@ Spec == Init /\ [][Next]_vars /\ Fairness
 
 \* stream up, both loops running, sender idle in its first select, queues empty, caller idle
 Quiescent ==
-  /\ up /\ run = "sendSelect" /\ rcv = "recv" /\ caller = "idle"
+  /\ up /\ ~silent /\ run = "sendSelect" /\ rcv = "recv" /\ caller = "idle"
   /\ subCh = <<>> /\ unsubCh = <<>>
 
 \* EventuallyInSync, safety half: whenever the client has nothing left to send on an
@@ -274,8 +301,8 @@ ConvergesUnlessAmbiguous == <>[](Quiescent /\ (srv \ amb) = (deps \ amb))
 \* every Subscribe / Unsubscribe call returns
 CallerReturns == (caller # "idle") ~> (caller = "idle")
 
-\* after a failure a new stream is requested
-KeepsRetrying == (~up) ~> (run = "newStream")
+\* after a failure - signalled or silent - a new stream is requested
+KeepsRetrying == (~up \/ silent) ~> (run = "newStream")
 
 \* named windows (anti-vacuity: ~W must be violated)
 W_EnqueueBlockedHoldingLock ==
@@ -285,6 +312,10 @@ W_BothListsOneBatch == run = "sendSend" /\ up /\ batchS \cap batchU # {}
 W_BatchDroppedOnStop == run \in {"sendBatch"} /\ rcv = "done" /\ (batchS \cup batchU) # {}
 W_SendOnBrokenStream == run \in {"sendSend", "resubSend"} /\ ~up
 W_EnqueueBlockedNoLock == caller = "enqueue" /\ lock = "free" /\ ~up /\ Len(subCh) = Cap
+W_IdleOnSilentStream == silent /\ run = "sendSelect" /\ rcv = "recv" /\ caller = "idle" /\ deps # {}
+W_SendIntoSilentStream == silent /\ run = "sendSend"
+NotW6 == ~W_IdleOnSilentStream
+NotW7 == ~W_SendIntoSilentStream
 NotW1 == ~W_EnqueueBlockedHoldingLock
 NotW2 == ~W_BothListsOneBatch
 NotW3 == ~W_BatchDroppedOnStop
